@@ -385,9 +385,11 @@ def random_spec(rng, want_cn=None, pseudogene=None, kinds=None, hostile=0.3, max
                 an = f"{name}*{next_num}.001"
                 muts = [[pname, f"{brk}-" if left else rng.choice([f"{brk}+", brk])]]
                 if rng.random() < 0.35 and func_pool:
-                    # own core variant inside the retained gene part
+                    # own core variant inside the retained gene part (hostile: inside the lost part)
                     idx = order.index(brk)
                     keep = order[idx:] if left else order[:idx]
+                    if rng.random() < hostile * 0.6:
+                        keep = order[:idx] if left else order[idx:]
                     cands = [m for m in func_pool
                              if any(rs[r][0] <= m[0] - 1 < rs[r][1] for r in keep)]
                     if cands:
@@ -400,6 +402,16 @@ def random_spec(rng, want_cn=None, pseudogene=None, kinds=None, hostile=0.3, max
                                                 "mutations": [[name, "deletion"]]}
             fusion_alleles[str(next_num)] = ("deletion", None)
             next_num += 1
+        # hostile: a custom partial deletion that removes exactly the regions a fusion loses
+        fl = [(k_, v_) for k_, v_ in fusion_alleles.items() if v_[0] in ("left", "right")]
+        if fl and rng.random() < hostile * 0.5:
+            k_, (kind_, brk_) = rng.choice(fl)
+            idx = order.index(brk_)
+            lost = order[:idx] if kind_ == "left" else order[idx:]
+            if lost and len(lost) < len(order):
+                alleles[f"{name}*{next_num}.001"] = {"mutations": [[name, "deletion:" + ",".join(lost)]]}
+                fusion_alleles[str(next_num)] = ("custom", tuple(lost))
+                next_num += 1
         if rng.random() < 0.2:
             k = rng.randint(1, n_exons - 1) if n_exons > 1 else 1
             alleles[f"{name}*{next_num}.001"] = {
